@@ -6,10 +6,13 @@ set -u
 D=$(readlink -f "$1"); shift
 TESTS=1; if [ "${1:-}" = "--no-tests" ]; then TESTS=0; shift; fi
 W=$(mktemp -d /tmp/seedrun_XXXXXX); rmdir "$W"
-git -C /repo worktree add -q --detach "$W" HEAD || exit 2
-cleanup() { git -C /repo worktree remove --force "$W" 2>/dev/null; rm -rf "$W"; }
+BASE=HEAD; [ -f "$D/base" ] && BASE=$(cat "$D/base")
+git -C /repo worktree add -q --detach "$W" "$BASE" || exit 2
+echo "SEEDRUN $(basename "$D"): base commit $BASE"
+cleanup() { git -C /repo worktree remove --force "$W" 2>/dev/null; rm -rf "$W" "${W}_demo.py" "${W}_demo.out"; }
 trap cleanup EXIT
-run_demo() { (cd "$W" && PYTHONPATH="$W" timeout 1200 /venv/bin/python "$D/demo.py" > "$W/demo.out" 2>&1; echo $?); }
+DEMO="${W}_demo.py"; sed "s|/tmp/seed_[A-Za-z0-9_]*|$W|g" "$D/demo.py" > "$DEMO"
+run_demo() { (cd "$W" && PYTHONPATH="$W" timeout 1800 /venv/bin/python "$DEMO" > "${W}_demo.out" 2>&1; echo $?); }
 r0=$(run_demo)
 if ! git -C "$W" apply "$D/patch.diff"; then echo "SEEDRUN: patch does not apply to HEAD"; exit 2; fi
 r1=$(run_demo)
